@@ -17,6 +17,8 @@ struct Bypass {
   }
 };
 
+extern bool g_yieldAtOpen; // file/directory opens are scheduling points
+
 struct FdInfo {
   enum Kind { CGDIR, CGFILE, PROC, KMSG, DROPIN, OTHER } kind = OTHER;
   int inc = -1; // cgroup incarnation
